@@ -307,6 +307,7 @@ def is_subclass_name(interp, cls_name, base_name, st=None):
 def getattr_value(interp, st, base, attr, node=None):
     I = _I()
     M = _M()
+    base = _resolve_lazy(interp, base)
     if isinstance(base, I.ModuleRef):
         full = f"{base.name}.{attr}"
         if full in LIBFUNCS:
@@ -354,6 +355,8 @@ def getattr_value(interp, st, base, attr, node=None):
             return base.name
         if attr == "__mro__":
             return tuple(class_mro(interp, base))
+        if r is None and (base.name, attr) in interp.ctx.registry.assumed_methods:
+            return I.Native(f"{base.name}.{attr}", interp.ctx.registry.assumed_methods[(base.name, attr)])
         if r is None:
             raise Outside(f"class attribute {base.name}.{attr}", node)
         if isinstance(r, tuple) and r[0] == "const":
@@ -472,8 +475,22 @@ def call(interp, st, node):
     return call_value(interp, st, f, args, kwargs, node, self_node)
 
 
+def _resolve_lazy(interp, v):
+    from .tys import LazyClass
+
+    if isinstance(v, LazyClass):
+        I = _I()
+        mod = interp.ctx.repo.module(v.file)
+        n = mod.toplevel(v.name)
+        if not isinstance(n, ast.ClassDef):
+            raise Outside(f"class {v.name} not found in {v.file}")
+        return I.ClassRef(mod, n)
+    return v
+
+
 def call_value(interp, st, f, args, kwargs, node, self_node=None):
     I = _I()
+    f = _resolve_lazy(interp, f)
     if isinstance(f, I.Native):
         return f.fn(interp, st, args, kwargs, node)
     if isinstance(f, I.BoundMethod):
